@@ -32,6 +32,9 @@ type Scn struct {
 	Parent map[string]any `json:"parent"`
 	// SelLabels satisfy the parent's selector (empty under generateSelector).
 	SelLabels map[string]string `json:"selectorLabels"`
+	// DeleteParent (C12): 1 = the user deletes the parent before the faulted sync,
+	// 2 = and one finalize sync has already run (the faulted sync removes the finalizer).
+	DeleteParent int `json:"deleteParent,omitempty"`
 }
 
 func (s *Scn) ParentNS() string   { return metaStr(s.Parent, "namespace") }
